@@ -70,6 +70,28 @@ func (kf *KnownFindings) match(p *Prog, repo, prop string, o *Obligation) *Known
 	return nil
 }
 
+// matchOther: the obligation is an open known finding of another property (its witness
+// still reproduces).
+func (kf *KnownFindings) matchOther(p *Prog, repo, prop string, o *Obligation) *KnownFinding {
+	for i := range kf.Findings {
+		f := &kf.Findings[i]
+		if f.Status == "fixed" || f.Property == prop || f.Obligation != o.Name {
+			continue
+		}
+		if f.WitnessTest == "" {
+			return f
+		}
+		if !f.checked {
+			f.checked = true
+			f.confirmed, f.output = runWitness(p, repo, f)
+		}
+		if f.confirmed {
+			return f
+		}
+	}
+	return nil
+}
+
 func runWitness(p *Prog, repo string, f *KnownFinding) (bool, string) {
 	var b strings.Builder
 	pkgName := f.WitnessPkg[strings.LastIndex(f.WitnessPkg, "/")+1:]
